@@ -213,6 +213,8 @@ class VFSZip(VFS_Real):
         while len(symlinkinodes) and len(symlinkinodes) != lastsymlinklen:
             lastsymlinklen = len(symlinkinodes)
             newsymlinkinodes = []
+            # Paths recorded as missing by an earlier pass may exist by now.
+            self.invalid_paths.clear()
             for item in symlinkinodes:
                 if item["dest"][0] == "/":
                     dest = item["dest"][1:]
@@ -224,6 +226,7 @@ class VFSZip(VFS_Real):
                 else:
                     newsymlinkinodes.append(item)
             symlinkinodes = newsymlinkinodes
+        self.invalid_paths.clear()
 
     def _islinkinfo(self, info: zipfile.ZipInfo) -> bool:
         return stat.S_ISLNK(info.external_attr >> 16)
